@@ -618,7 +618,7 @@ def words_s(s):
     if t == "SIf":
         return ["if", "("] + words_e(s[1]) + [")"] + words_s(s[2]) + ([] if s[3] is None else ["else"] + words_s(s[3]))
     if t == "SDoWhile":
-        return ["do"] + words_s(s[1]) + ["while", "("] + words_e(s[2]) + [")"] + ([] if styled(0.3) else [";"])
+        return ["do"] + words_s(s[1]) + ["while", "("] + words_e(s[2]) + [")", ";"]
     if t == "SWhile":
         return ["while", "("] + words_e(s[1]) + [")"] + words_s(s[2])
     if t == "SFor":
@@ -1240,6 +1240,9 @@ def soft_mutate(text, rng):
     if not ws:
         return rng.choice(SOFT_ATOMS)
     for _ in range(rng.choice([1, 1, 1, 2, 3])):
+        ws = [w for w in ws if w]
+        if not ws:
+            return rng.choice(SOFT_ATOMS)
         k = rng.randrange(len(ws))
         w = ws[k]
         r = rng.random()
